@@ -9,6 +9,8 @@ open Lp Lp.C11
     c11.nm   <ftol> <mpts> <row>… <prog>       minimize(pp, func)
     c11.nmd  <ftol> <start> <deltas> <prog>    minimize(start, deltas, func)
     c11.nm1  <ftol> <start> <delta> <prog>     minimize(start, delta, func)
+    c11.nmseq <ftol> <n> (nm <mpts> <row>… <prog> | nmd <start> <deltas> <prog> | nm1 <start> <delta> <prog>)…
+                                               the runs on ONE Minimization object; answers joined by ` | `
 
     Answers: 1-D  `ok xmin fmin stopbits ntrace (x bits)…`;  n-D `ok stopbits ndim pmin… fmin nfunc mpts y… rows… ntrace (pt… bits)…`
     where `bits = ⌊-log₂ margin⌋` (999 for margin 0). -/
@@ -68,6 +70,20 @@ def showN (r : Option (OutN × List EvN)) (fdef : Pt → Option Rat) : String :=
     | .nmax => "err " ++ t
     | .fuel => "undef"
 
+/-- one member of an object-reuse sequence: overload tag, its simplex (the documented one for the
+    delta overloads; `[]` = undefined request), the objective program -/
+def pMember : P (List Pt × List Tok) := do
+  let k ← tok
+  match k with
+  | "nm" => do let pp ← pList pRats; let pr ← pProg; pure (pp, pr)
+  | "nmd" => do
+      let st ← pRats; let ds ← pRats; let pr ← pProg
+      pure (if ds.length < st.length then [] else simplexOf rndD st ds, pr)
+  | "nm1" => do
+      let st ← pRats; let d ← pRat; let pr ← pProg
+      pure (simplexOf rndD st (List.replicate st.length d), pr)
+  | _ => failure
+
 def handle : Handler := fun op args =>
   match op with
   | "c11.min" | "c11.max" =>
@@ -95,6 +111,13 @@ def handle : Handler := fun op args =>
         let fdef : Pt → Option Rat := fun x => evalRPN rndD pr x
         let f : Pt → Rat := fun x => (fdef x).getD 0
         showN (nelderMeadDelta rndD f ftol st d (NMAX + 2)) fdef
+  | "c11.nmseq" =>
+    withArgs (do let ftol ← pRat; let ms ← pList pMember; pure (ftol, ms)) args
+      fun (ftol, ms) =>
+        let runs : List ((Pt → Rat) × List Pt) := ms.map (fun m => ((fun x => (evalRPN rndD m.2 x).getD 0), m.1))
+        let obj0 : NM := { p := [], y := [], psum := [], nfunc := 0 }
+        let rs := nmSeqOn rndD ftol (NMAX + 2) obj0 runs
+        "ok " ++ " | ".intercalate ((rs.zip ms).map (fun rm => showN rm.1 (fun x => evalRPN rndD rm.2.2 x)))
   | "c11.rnd" => withArgs pRat args fun x => "ok " ++ showQ (rndD x)
   | _ => none
 
